@@ -178,13 +178,21 @@ def _warm_up(s, warm):
     return "ok"
 
 
-def dispatch(method, has_id, rid, psel, leaf, hsel, text="boom", warm=0):
+def dispatch(method, has_id, rid, psel, leaf, hsel, text="boom", warm=0, before=()):
     s = make_server(hsel, text)
     params = params_shape(psel, leaf)
     if warm:
         r = _warm_up(s, warm)
         if r != "ok":
             return r
+    for (bm, bhas, bid, bparams) in before:
+        # an earlier message on the same server (its own outcome is judged by the obligations that send it last)
+        try:
+            drive(s.protocol_handler.handle_message(_msg(bm, bhas, bid, bparams), None))
+        except HarnessError:
+            raise
+        except Exception as e:
+            return "earlier-message-made-dispatch-raise:" + type(e).__name__
     try:
         msg = _msg(method, has_id, rid, params)
     except Exception:
@@ -574,3 +582,29 @@ def dispatch_text(mi, i, where, hsel, has_id):
     if where == 5:
         return dispatch(m + text, has_id, rid, 0, "v", hsel)
     return dispatch(m, has_id, rid, 6 if m == "tools/call" else (7 if m == "resources/read" else 0), "v", hsel, text)
+
+
+def dispatch_after(mi, has_id, rid, ev, hsel, psel):
+    """the message is handled by a server that has seen an EARLIER message: (0) the same method as a notification,
+    (1) the same method as a request with another id, (2) a request whose handler raised, (3) a notification whose
+    handler raised, (4) an unregistered method as notification, (5) the same request id used before, (6) a
+    malformed tools/call, (7) initialize"""
+    m = pick_method(mi)
+    params = params_shape(psel, "v")
+    if ev == 0:
+        before = [(m, False, None, params)]
+    elif ev == 1:
+        before = [(m, True, "earlier", params)]
+    elif ev == 2:
+        before = [("custom/raise", True, "e1", None)]
+    elif ev == 3:
+        before = [("notifications/custom_fail", False, None, None)]
+    elif ev == 4:
+        before = [("no/such", False, None, None), (m + "x", False, None, None)]
+    elif ev == 5:
+        before = [("ping", True, rid, None)]
+    elif ev == 6:
+        before = [("tools/call", True, "t1", {"name": ["x"]}), ("tools/call", True, "t2", {"name": "nope"})]
+    else:
+        before = [("initialize", True, "i1", params_shape(9, "2025-03-26"))]
+    return dispatch(m, has_id, rid, psel, "v", hsel, "boom", 0, before)
